@@ -35,4 +35,25 @@ theorem update_order : Facts.evpool_update_order =
 theorem key_spaces_distinct :
     Facts.evpool_baseKeyCommitted = 0 ∧ Facts.evpool_baseKeyPending = 1 := by decide
 
+/-- `GetByzantineValidators`, equivocation branch: a slot whose address names nobody in the
+conflicting set is skipped (repaired code; model: `equivocators`). Without it evidence verification
+panics. -/
+theorem byz_skips_unknown_address :
+    Facts.evpool_byz_equiv_nil_guard = "val == nil" ∧ Facts.evpool_byz_skip_nil = true := by decide
+
+/-- `validateABCIEvidence`: an empty decoded list is not "some validators" (repaired code; model:
+`validateABCI`). -/
+theorem abci_nil_check :
+    Facts.evpool_abci_nil_check = "validators == nil && len(ev.ByzantineValidators) != 0" := by decide
+
+/-- `VerifyLightClientAttack`: jump / derivation check, commit check, then the ABCI part. -/
+theorem lca_order : Facts.evpool_lca_order =
+    ["commonVals.VerifyCommitLightTrusting", "e.ConflictingHeaderIsInvalid",
+     "e.ConflictingBlock.ValidatorSet.VerifyCommitLight", "validateABCIEvidence"] := by decide
+
+/-- `prepareEvidenceMessage`: the two guards (model: `prepare`). -/
+theorem reactor_prepare_guards :
+    Facts.evreactor_peer_behind = "peerHeight <= evHeight" ∧
+    Facts.evreactor_too_old = "ageNumBlocks > params.MaxAgeNumBlocks" := by decide
+
 end Tmv.Expect.C11
